@@ -377,6 +377,23 @@ inductive Lives (pc : PCfg) (raws : List Raw) (start : Int) (t0 : TState) (txn :
       (hd' : 0 ≤ d') :
       Lives pc raws start t0 txn (applyLog (crash T) ((run sc initS evs).2.flatten.take k)) o' d'
 
+/-- `Replayed S P Q`: the history `Q` of a target is the part `P` of the specification
+    `S` executed life by life -- each life executes the NEXT piece `S1` of the
+    specification (from where `P` ended) and possibly an overshoot `X`, a prefix of
+    what the specification continues with; the overshoot is what the next life
+    executes again. Nothing else is ever in `Q`. -/
+inductive Replayed (S : List Applied) : List Applied → List Applied → Prop
+  | nil : Replayed S [] []
+  | life {P Q : List Applied} (h : Replayed S P Q) (S1 X : List Applied)
+      (hS : P ++ S1 <+: S) (hX : X <+: S.drop (P ++ S1).length) :
+      Replayed S (P ++ S1) (Q ++ S1 ++ X)
+
+theorem Replayed.sublist {S P Q : List Applied} (h : Replayed S P Q) : List.Sublist P Q := by
+  induction h with
+  | nil => exact List.Sublist.refl _
+  | life _ S1 X _ _ ih =>
+    exact (ih.append (List.Sublist.refl S1)).trans (List.sublist_append_left _ _)
+
 theorem filter_gt_filter (raws : List Raw) (o o' : Int) (h : o ≤ o') :
     (raws.filter (fun r => decide (o < r.off))).filter (fun r => decide (o' < r.off)) =
       raws.filter (fun r => decide (o' < r.off)) := by
@@ -395,7 +412,12 @@ theorem filter_gt_filter (raws : List Raw) (o o' : Int) (h : o ≤ o') :
     target -- in order, as a subsequence of what it executed since the beginning
     (`Q`; the rest of `Q` are repetitions) -- and the second part is exactly what a
     run resumed from `(o, d)` executes. If every life was transactional and
-    resumable, `Q = P`: nothing was executed twice. -/
+    resumable, `Q = P`: nothing was executed twice. What else `Q` holds is said
+    exactly by `Replayed`: life by life the next piece of the specification and an
+    overshoot that is a prefix of what the specification continues with -- every
+    extra command is a repetition-to-be of the next life, nothing is invented.
+    (`Props/C02Start.lean` `lives_startPoint`: `StartsAt` is what the modelled
+    `GetCheckpoint` returns in every reachable state.) -/
 theorem lives_lose_nothing (pc : PCfg) (raws : List Raw) (start : Int) (t0 : TState) (txn : Bool)
     (hraw : (raws.map (·.off)).Pairwise (· < ·)) (hlo : ∀ r ∈ raws, start < r.off)
     (hstart : 0 ≤ start)
@@ -410,17 +432,17 @@ theorem lives_lose_nothing (pc : PCfg) (raws : List Raw) (start : Int) (t0 : TSt
     StartsAt T.cps start o d ∧ start ≤ o ∧ 0 ≤ d ∧
     ∃ P Q, T.applied = t0.applied ++ Q ∧ List.Sublist P Q ∧
       specStream pc false 0 raws = P ++ specStream pc false d (raws.filter (fun r => decide (o < r.off))) ∧
-      (txn = true → Q = P) := by
+      (txn = true → Q = P) ∧ Replayed (specStream pc false 0 raws) P Q := by
   induction h with
   | init =>
     refine ⟨Or.inl ⟨hno, rfl, rfl⟩, Int.le_refl _, Int.le_refl _, [], [], by simp, List.Sublist.refl _, ?_,
-      fun _ => rfl⟩
+      fun _ => rfl, Replayed.nil⟩
     have : raws.filter (fun r => decide (start < r.off)) = raws := by
       apply List.filter_eq_self.mpr
       intro x hx; simpa using hlo x hx
     rw [this]; rfl
   | @life T o d hL sc evs k o' d' hitems hnd htx hpos hd' ih =>
-    obtain ⟨hsa, hso, hd0, P, Q, happ, hsub, hspec, hexact⟩ := ih
+    obtain ⟨hsa, hso, hd0, P, Q, happ, hsub, hspec, hexact, hrep⟩ := ih
     -- the stream this life reads
     generalize hB : raws.filter (fun r => decide (o < r.off)) = B at hitems hspec
     have hBsub : List.Sublist B raws := by rw [← hB]; exact List.filter_sublist
@@ -469,10 +491,16 @@ theorem lives_lose_nothing (pc : PCfg) (raws : List Raw) (start : Int) (t0 : TSt
         intro x; rw [hsame.2, hoff x]; rfl
       obtain ⟨ho', hdd'⟩ := startsAt_unique hpos hsa1
       subst ho'; subst hdd'
-      refine ⟨hpos, hso, hd', P, Q ++ (seqApplied 0 (dataB E)).2, ?_, ?_, ?_, ?_⟩
+      refine ⟨hpos, hso, hd', P, Q ++ (seqApplied 0 (dataB E)).2, ?_, ?_, ?_, ?_, ?_⟩
       · rw [hsame.1, happE, happc, happ, List.append_assoc]
       · exact hsub.trans (List.sublist_append_left _ _)
       · rw [hB]; exact hspec
+      rotate_left
+      · -- a life without position write: no new piece, only an overshoot
+        have := Replayed.life hrep [] (seqApplied 0 (dataB E)).2
+          (by rw [List.append_nil, hspec]; exact List.prefix_append _ _)
+          (by rw [List.append_nil, hspec, List.drop_left]; exact hpre)
+        simpa using this
       · intro htxn
         have hdE : dataB E = [] := by
           apply List.eq_nil_iff_forall_not_mem.mpr
@@ -508,10 +536,19 @@ theorem lives_lose_nothing (pc : PCfg) (raws : List Raw) (start : Int) (t0 : TSt
       refine ⟨hpos, by omega, hd',
         P ++ (seqApplied d (itemCmds (parseAll pc { lastSent := o } (B.filter (fun r => decide (r.off ≤ o')))))).2,
         Q ++ (seqApplied d (itemCmds (parseAll pc { lastSent := o } (B.filter (fun r => decide (r.off ≤ o')))))).2
-          ++ (seqApplied d' (dataB E2)).2, ?_, ?_, ?_, ?_⟩
+          ++ (seqApplied d' (dataB E2)).2, ?_, ?_, ?_, ?_, ?_⟩
       · rw [hsame.1, happE, happc, happ]; simp [List.append_assoc]
       · exact ((hsub.append (List.Sublist.refl _)).trans (List.sublist_append_left _ _))
       · rw [hspec, hspecB, List.append_assoc]
+      rotate_left
+      · -- the next piece of the specification, then the overshoot
+        have hS : specStream pc false 0 raws =
+            (P ++ (seqApplied d (itemCmds (parseAll pc { lastSent := o }
+              (B.filter (fun r => decide (r.off ≤ o')))))).2) ++
+            specStream pc false d' (raws.filter (fun r => decide (o' < r.off))) := by
+          rw [hspec, hspecB, List.append_assoc]
+        exact Replayed.life hrep _ _ (by rw [hS]; exact List.prefix_append _ _)
+          (by rw [hS, List.drop_left]; exact hX)
       · intro htxn
         -- transactional: nothing executed after the last position write
         have hdE2 : dataB E2 = [] := by
@@ -586,7 +623,7 @@ theorem lives_then_complete (pc : PCfg) (raws : List Raw) (start : Int) (t0 : TS
     ∃ Q', (applyLog (crash T) (run sc initS (evs ++ [.done])).2.flatten).applied = t0.applied ++ Q' ∧
       List.Sublist (specStream pc false 0 raws) Q' ∧
       (txn = true → Q' = specStream pc false 0 raws) := by
-  obtain ⟨_, _, hd0, P, Q, happ, hsub, hspec, hexact⟩ := lives_lose_nothing pc raws start t0 txn hraw hlo
+  obtain ⟨_, _, hd0, P, Q, happ, hsub, hspec, hexact, _⟩ := lives_lose_nothing pc raws start t0 txn hraw hlo
     hstart hnest hpass hnf hsel hmap hno T o d h
   have hBsub : List.Sublist (raws.filter (fun r => decide (o < r.off))) raws := List.filter_sublist
   have hnnB := run2_items_noNested_src pc raws o hraw hnest hpass
@@ -682,5 +719,61 @@ example : True := by
     (fun d => rfl) lvT2 160 7 lvLives
   trivial
 
+
+/-! More instances (asked for by the third review): a transactional `Lives`, the
+    branch without any stored position (`life_nocp`), `lives_then_complete`, and
+    `crash_then_resume_txn_exact`. -/
+
+def lvT1tx : TState := applyLog (crash trT) ((run trCfgTx initS trEvs1).2.flatten.take 10)
+/-- a transactional life: dies inside its second block, position 77 in database 5 -/
+theorem lvLivesTx : Lives trPc trRaws 0 trT true lvT1tx 77 5 :=
+  Lives.life Lives.init trCfgTx trEvs1 10 77 5 (by decide +kernel)
+    (by unfold GunYu.Props.C01.NoDone; decide +kernel)
+    (fun _ => ⟨rfl, rfl, nonNegB_spec trEvs1 (by decide +kernel)⟩)
+    (Or.inr (uniqueMaxB_spec _ _ _ (by decide +kernel))) (by omega)
+example : True := by
+  have := lives_lose_nothing trPc trRaws 0 trT true (by decide +kernel) (by decide +kernel) (by omega)
+    (by simp [RawNoNested, trRaws, bSelect, bMulti, bExec]) (fun r _ _ => ⟨rfl, rfl⟩) (by decide +kernel)
+    (selOK_spec trRaws (by decide +kernel)) (mapDb_ok trPc rfl (by decide +kernel))
+    (fun d => rfl) lvT1tx 77 5 lvLivesTx
+  trivial
+/-- exactly the specification up to 77, nothing twice -/
+example : lvT1tx.applied =
+    [ { db := 5, name := [115,101,116], args := [[97],[49]] },
+      { db := 5, name := [115,101,116], args := [[98],[50]] } ] := by decide +kernel
+
+/-- a life that dies after ONE request: no position stored (`StartsAt`'s first
+    branch, `life_nocp`); the next life starts at the beginning again -/
+def lvT0 : TState := applyLog (crash trT) ((run trCfg initS trEvs1).2.flatten.take 1)
+theorem lvLivesNone : Lives trPc trRaws 0 trT false lvT0 0 0 :=
+  Lives.life Lives.init trCfg trEvs1 1 0 0 (by decide +kernel)
+    (by unfold GunYu.Props.C01.NoDone; decide +kernel) (fun h => by cases h)
+    (Or.inl ⟨by
+      have hc : (applyLog (crash trT) ((run trCfg initS trEvs1).2.flatten.take 1)).cps = [] := by decide +kernel
+      intro d; rw [hc]; rfl, rfl, rfl⟩) (by omega)
+
+/-- `lives_then_complete` after life 1: the run resumed at (5, 50) finishes -/
+example : True := by
+  have h1 : Lives trPc trRaws 0 trT false lvT1 50 5 :=
+    Lives.life Lives.init trCfg trEvs1 5 50 5 (by decide +kernel)
+      (by unfold GunYu.Props.C01.NoDone; decide +kernel) (fun h => by cases h)
+      (Or.inr (uniqueMaxB_spec _ _ _ (by decide +kernel))) (by omega)
+  have := lives_then_complete trPc trRaws 0 trT false (by decide +kernel) (by decide +kernel) (by omega)
+    (by simp [RawNoNested, trRaws, bSelect, bMulti, bExec]) (fun r _ _ => ⟨rfl, rfl⟩) (by decide +kernel)
+    (selOK_spec trRaws (by decide +kernel)) (mapDb_ok trPc rfl (by decide +kernel))
+    (fun d => rfl) lvT1 50 5 h1 trCfg rfl lvEvs2 (by decide +kernel)
+    (by unfold GunYu.Props.C01.NoDone; decide +kernel)
+  trivial
+
+/-- `crash_then_resume_txn_exact` on the example stream -/
+example : True := by
+  have := crash_then_resume_txn_exact trPc trCfgTx rfl rfl trRaws 0 trEvs1 (by decide +kernel)
+    (by decide +kernel) (by decide +kernel) (by omega)
+    (by unfold GunYu.Props.C01.NoDone; decide +kernel) (nonNegB_spec trEvs1 (by decide +kernel))
+    (run1_items_noNested_src trPc trRaws 0 (by simp [RawNoNested, trRaws, bSelect, bMulti, bExec])
+      (fun r _ _ => ⟨rfl, rfl⟩))
+    (by decide +kernel) (selOK_spec trRaws (by decide +kernel)) (mapDb_ok trPc rfl (by decide +kernel))
+    trT rfl rfl rfl 10
+  trivial
 
 end GunYu.Props.C02
